@@ -145,7 +145,8 @@ def run_shards(fn, *fargs, nshards=None, prop=None):
     The parent has already bound skoolkit (incl. fresh C builds); fork shares it.
     A worker exception makes the whole check *broken* (exit 2), never a verdict.
     """
-    from .skbuild import BrokenCheck
+    from .skbuild import BrokenCheck, scratch_dir
+    scratch_dir()       # created (and later removed) by the parent, shared by the workers
     nshards = nshards or NPROC
     total = Stats(prop)
     if nshards == 1:
